@@ -297,13 +297,48 @@ def r4_vartrail(ctx):
         rep.fail('C02.R4', 'C02.R4:main.c:refusal:variable_trailing_context_with_-f/-F', fwhere(f),
                  'variable trailing context rules no longer turn on `reject` before the -f/-F refusal in readin(): the combination is now accepted')
 
+# ------------------------------------------------------------------ R7
+
+def r7(ctx):
+    """7-bit scanners: a pattern character the scanner's tables have no column for is refused.  check_char(c) is interpreted
+    for every (c, csize) in {0, 1, 127, 128, 129, 200, 255} x {128, 256}: it must end in the error routine exactly when
+    c >= csize (the value csize itself is the slot flex uses for NUL, so accepting it folds the character onto NUL)."""
+    from genutil import MiniEval, EvalUnknown
+    rep = ctx.rep; prog = ctx.flex
+    f = prog.fn('check_char'); rep.require(f is not None and f.blocks, 'check_char() not found in flex')
+    res = ir.Resolver(f)
+    cells = set()
+    for x in f.ins:
+        if x.op == 'load' and ir.loc_class(res.loc(x.ops[0])) == ('field', 'ctrl_bundle_t', 'csize'): cells.add(flow._freeze(res.loc(x.ops[0])))
+    rep.require(cells, 'check_char() does not read ctrl.csize')
+    pname = f.params[0][1]
+    for csize in (128, 256):
+        for c in (0, 1, 127, 128, 129, 200, 255):
+            want = c >= csize
+            try:
+                ev = MiniEval(prog, None, max_steps=20000, max_paths=64, inline=False)
+                outs = ev.run(f, f.entry, 0, {pname: c}, {k: csize for k in cells})
+            except EvalUnknown as e:
+                rep.broken('C02.R7: check_char(%d) with csize %d could not be interpreted: %s' % (c, csize, e))
+            kinds = {o[0] for o in outs}
+            refused = kinds == {'exit'}
+            accepted = kinds == {'ret'}
+            if not (refused or accepted): rep.broken('C02.R7: check_char(%d) with csize %d has outcomes %s' % (c, csize, sorted(kinds)))
+            if refused == want:
+                rep.ok('C02.R7', 'check_char(%d), csize %d: %s' % (c, csize, 'refused' if refused else 'accepted'))
+            else:
+                rep.fail('C02.R7', 'C02.R7:misc.c:check_char:%s' % ('accepts-character-outside-the-character-set' if want else 'refuses-character-of-the-character-set'), fwhere(f),
+                         'check_char(%d) with a %d-character set %s: %s' % (c, csize, 'returns normally' if want else 'ends in the error routine',
+                         'a 7-bit scanner accepts an 8-bit pattern character and folds it onto the slot of NUL, so it behaves differently from the 8-bit scanner' if want else 'a character of the scanner\'s character set is rejected'),
+                         replay_input='%%option 7bit\n%%%%\n[\\%o]  return 1;\n' % c if want else None)
+
 def run(ctx):
     rep = ctx.rep
     r1(ctx)
     vs = list(ctx.core())      # thorough tier: core + 3-wise covering array (added by the driver)
     nvec = r2(ctx, vs)
     cov = coverage(ctx, [v for v in vs if not v.name.startswith('ca')])
-    r3(ctx); r4(ctx); r4_vartrail(ctx)
+    r3(ctx); r4(ctx); r4_vartrail(ctx); r7(ctx)
     import tbl
     tbl.rule_representations(ctx, 'C02.R5')
     # R6: the numbers of every emitted table fit the element type flex declared for it (core variants + language probes)
@@ -318,6 +353,7 @@ def run(ctx):
     rep.floor('C02.R3', 8, '4 macros x 2 sibling skeletons')
     rep.floor('C02.R4', 15, 'reference table of refusals')
     rep.floor('C02.R5', 10, 'language probes, with and without REJECT')
+    rep.floor('C02.R7', 14, 'check_char over 7 characters x 2 character-set sizes')
     rep.floor('C02.R6', 800, 'constant tables of the core variants and the language probes')
     rep.undecided += ['behavioural equality of the scanners across table representations, APIs and back ends (run-time quantity)',
                       'the go back end is analysed but its ill-formed outputs are notes, not violations (not a documented back end in the property)']
